@@ -93,6 +93,7 @@ type Task struct {
 	done     bool
 	killed   bool
 	detached bool
+	kids     []*Task // tasks started by this one since its operation began
 }
 
 type event struct {
@@ -313,6 +314,7 @@ func BeginOp(budget int64) {
 		return
 	}
 	t.opStart = t.steps
+	t.kids = t.kids[:0]
 	if budget <= 0 {
 		t.opEnd = noLimit
 	} else {
@@ -335,7 +337,31 @@ func EndOp() int64 {
 	}
 	t.opEnd = noLimit
 	t.next = t.segEnd
-	return t.steps - t.opStart
+	// the yield sites passed by the goroutines the operation started count
+	// too: the same work is then reported as the same number of steps
+	// whether the code under test did it on one goroutine or on several
+	n := t.steps - t.opStart
+	for _, k := range t.kids {
+		n += k.familySteps()
+	}
+	t.kids = t.kids[:0]
+	return n
+}
+
+//go:norace
+func (t *Task) familySteps() int64 {
+	n := t.steps
+	for _, k := range t.kids {
+		n += k.familySteps()
+	}
+	return n
+}
+
+//go:norace
+func (t *Task) addKid(k *Task) {
+	if len(t.kids) < 4096 {
+		t.kids = append(t.kids, k)
+	}
 }
 
 // CurrentTask returns the id of the running task, or -1.
@@ -651,6 +677,7 @@ func Go(fn func()) {
 		return
 	}
 	child := t.s.spawnFromTask(fn)
+	t.addKid(child)
 	t.yield(SitePrimBase+1, WhySpawn, child)
 }
 
